@@ -327,3 +327,241 @@ Proof.
   - intros o Ho. destruct (Hz o Ho) as [_ ->]. rewrite Hh, hbet_app. destruct (Hk o) as [_ ->]. rewrite <- (T3 o Ho). lia.
 Qed.
 End Refresh.
+
+(* ---- one iteration, decomposed once and for all ------------------------------------------------------------------------------------------------ *)
+From Sge Require Import Proofs.WagerBounds.
+
+Section Iter.
+Variable odds : list Z.
+Hypothesis Hndo : NoDup odds.
+Hypothesis Hsmall : zlen odds < U64.
+Variable A : wargs.
+Hypothesis Huids : wa_uids A = odds.
+Hypothesis Hoc : wa_oddscnt A = zlen odds.
+Hypothesis Hsel : In (wa_sel A) odds.
+
+Definition new_part (p0 : part) (so : option (Z * Z)) : list bpart :=
+  match so with Some (a, b) => [{| f_owner := p_owner p0; f_idx := p_idx p0; f_stake := a; f_pay := b |}] | None => [] end.
+
+Lemma wager_iter_decomp B idx rest s s' :
+  wager_iter A idx s = Some s' -> linv odds A B (idx :: rest) s ->
+  exists p0 pe0 so setf news p1 pe1 p3 pe3 bk2 st pay,
+    get_part (ws_book s) idx = Some p0 /\ ge (ws_book s) (wa_sel A) idx = Some pe0 /\
+    stored A idx (ws_book s) p0 pe0 so setf news p1 pe1 p3 pe3 bk2 /\
+    pe1 = expo_upd pe0 (e_exp pe0 + pay) (e_bet pe0 + st) (e_ful pe0) /\ p_tba p1 = p_tba p0 + st /\ p_owner p1 = p_owner p0 /\ 0 <= st /\ 0 <= pay /\
+    ((so = None /\ st = 0 /\ pay = 0 /\ p1 = p0) \/
+     (so = Some (st, pay) /\ fulfil_records p0 pe0 (wa_sel A) st pay = (p1, pe1) /\
+      pay <= avail_liq (wa_mult A) p0 pe0 /\ 0 < avail_liq (wa_mult A) p0 pe0)) /\
+    ws_parts s' = ws_parts s ++ new_part p0 so /\
+    bw odds bk2 /\ get_part bk2 idx = Some p3 /\
+    (ws_book s' = bk2 \/ (eligible_pre p3 = true /\ refreshed A idx bk2 p3 (ws_book s'))).
+Proof.
+  intros H L.
+  destruct L as [W Q (R & EU & NU & HR) Hq Hb].
+  destruct (Hq idx (or_introl eq_refl)) as [(p0' & e0' & Hgp & Hge0 & Hful0) (it & Hf & Hag)].
+  unfold wager_iter in H. rewrite Hf in H.
+  pose proof Hag as (Ag1 & Ag2 & Ag3). rewrite Hgp in Ag1. injection Ag1 as Ep0. subst p0'.
+  rewrite Hge0 in Ag2. rewrite Ag2 in H. rename e0' into pe0.
+  destruct (iter_switch A (fi_part it) pe0 s) as [[[[p1 pe1] setf] so] c1] eqn:ES.
+  destruct (switch_norm _ _ _ _ _ _ _ _ _ ES (wb_profit _ _ Hb)) as (st & pay & Epe1 & Ei1 & Eown & Eenf & Ecrtb & Etba & _ & _ & HN & HS).
+  pose proof (iter_switch_bounds _ _ _ _ _ _ _ _ _ ES (wb_left _ _ Hb) (wb_profit _ _ Hb)) as Hbnd.
+  destruct (iter_betside A (fi_part it) so s) as [[[[ba fu] pr] pa] bk0] eqn:EB.
+  destruct (iter_fulfilled A idx it setf p1 pe1 (ws_uq s) bk0) as [[[[p3 pe3] uq3] bk1]|] eqn:EF; [|discriminate].
+  pose proof (gp_idx _ _ _ Hgp) as Hi0.
+  destruct (ge_key _ _ _ _ Hge0) as (K1 & K2 & _).
+  assert (Hk1 : ekey pe1 = (wa_sel A, idx)) by (rewrite Epe1; unfold ekey; cbn; congruence).
+  destruct (iter_store A idx it s pe0 p1 pe1 setf so c1 ba fu pr pa bk0 p3 pe3 uq3 bk1 Hag Ag2 ltac:(rewrite Huids; exact Hndo) ES EB EF ltac:(congruence) Hk1)
+    as (news & Euq3 & HSt).
+  set (bk2 := set_part (set_expo bk1 pe3) p3) in *.
+  assert (W2 : bw odds bk2) by (eapply (bw_after_store odds Hndo Hsmall); eassumption).
+  assert (Hgp3 : get_part bk2 idx = Some p3) by (dS HSt; assumption).
+  assert (Hpa : pa = ws_parts s ++ new_part (fi_part it) so).
+  { unfold iter_betside in EB. destruct so as [[a b]|]; injection EB as _ _ _ <- _; [reflexivity|cbn; rewrite app_nil_r; reflexivity]. }
+  exists (fi_part it), pe0, so, setf, news, p1, pe1, p3, pe3, bk2, st, pay.
+  split; [exact Hgp|]. split; [exact Hge0|]. split; [exact HSt|]. split; [exact Epe1|]. split; [exact Etba|]. split; [exact Eown|].
+  assert (Hst : 0 <= st /\ 0 <= pay).
+  { destruct so as [[a b]|]; [destruct (HS a b eq_refl) as (-> & -> & _); destruct Hbnd as (X1 & X2 & _); lia|destruct (HN eq_refl) as (-> & -> & _); lia]. }
+  split; [apply Hst|]. split; [apply Hst|]. split.
+  { destruct so as [[a b]|].
+    - right. destruct (HS a b eq_refl) as (-> & -> & EFR & X1 & X2). repeat split; try assumption; lia.
+    - left. destruct (HN eq_refl) as (-> & -> & -> & _). repeat split. }
+  destruct ((p_enf p3 =? 0) && eligible_pre p3) eqn:ERf.
+  - apply andb_true_iff in ERf. destruct ERf as [Eenf0 Eel]. apply Z.eqb_eq in Eenf0.
+    assert (Hin3 : In p3 (bk_parts bk2)) by (apply get_part_in in Hgp3; tauto).
+    pose proof (gp_idx _ _ _ Hgp3) as Hi3.
+    assert (Hpw3 : pw odds bk2 idx p3) by (rewrite <- Hi3; apply (bw_parts _ _ W2); exact Hin3).
+    destruct (iter_refresh A idx it p3 bk2 (ws_fmap s) uq3) as [[bk5 fm2] uq5] eqn:ER.
+    destruct (iter_refresh_effect _ _ _ _ _ _ _ _ _ _ ER Hgp3 Eel (bw_ix _ _ W2) (bw_keys _ _ W2)) as (Rf & _ & _).
+    { intros e h He Hp Hh Hk. destruct (pw_round _ _ _ _ Hpw3) as (r & _ & R2 & R3).
+      destruct (bw_expo _ _ W2 e He) as [Ho _]. destruct (R2 _ Ho) as (e' & G1 & _ & _ & G4).
+      pose proof (ge_of_in _ _ (bw_keys _ _ W2) He) as Hge. rewrite Hp, G1 in Hge. injection Hge as ->.
+      apply expo_is_key in Hk. destruct Hk as [_ Hk]. rewrite Hp in Hk.
+      assert (Hhi : In h (hist_i bk2 idx)) by (unfold hist_i; apply filter_In; split; [exact Hh|apply Z.eqb_eq; exact Hk]).
+      destruct (R3 h Hhi) as [X _]. lia. }
+    injection H as Hs'. subst s'. cbn [ws_parts ws_book].
+    split; [exact Hpa|]. split; [exact W2|]. split; [exact Hgp3|]. right. split; assumption.
+  - injection H as Hs'. subst s'. cbn [ws_parts ws_book].
+    split; [exact Hpa|]. split; [exact W2|]. split; [exact Hgp3|]. left. reflexivity.
+Qed.
+End Iter.
+
+(* ---- the coverage / totals invariant of a book against a list of bets ---------------------------------------------------------------------- *)
+Definition cinv (odds : list Z) (b : book) (bs : list (Z * list bpart)) : Prop :=
+  forall p, In p (bk_parts b) -> pc odds b (p_idx p) p /\ pt odds b (p_idx p) p bs.
+
+Lemma pt_add_part odds b i p bs sel parts f :
+  f_idx f <> i -> pt odds b i p (bs ++ [(sel, parts)]) -> pt odds b i p (bs ++ [(sel, parts ++ [f])]).
+Proof.
+  intros Hne [T1 T2 T3].
+  assert (Hs : stk i (parts ++ [f]) = stk i parts /\ pyo i (parts ++ [f]) = pyo i parts).
+  { rewrite stk_app, pyo_app. unfold stk, pyo, parts_i. cbn [filter]. apply Z.eqb_neq in Hne. rewrite Hne. cbn. split; lia. }
+  destruct Hs as [Hs Hp].
+  constructor.
+  - rewrite T1, !stake_i_app. unfold stake_i. cbn [map zsum snd]. rewrite Hs. reflexivity.
+  - intros o Ho. rewrite (T2 o Ho), !pay_io_app. unfold pay_io. cbn [map zsum fst snd]. rewrite Hp. reflexivity.
+  - intros o Ho. rewrite (T3 o Ho), !stake_io_app. unfold stake_io. cbn [map zsum fst snd]. rewrite Hs. reflexivity.
+Qed.
+
+Lemma pt_zero_part odds b i p bs sel parts f :
+  f_stake f = 0 -> f_pay f = 0 -> pt odds b i p (bs ++ [(sel, parts ++ [f])]) -> pt odds b i p (bs ++ [(sel, parts)]).
+Proof.
+  intros Z1 Z2 [T1 T2 T3].
+  assert (Hs : stk i (parts ++ [f]) = stk i parts /\ pyo i (parts ++ [f]) = pyo i parts).
+  { rewrite stk_app, pyo_app. unfold stk, pyo, parts_i. cbn [filter]. destruct (f_idx f =? i); cbn; rewrite ?Z1, ?Z2; split; lia. }
+  destruct Hs as [Hs Hp].
+  constructor.
+  - rewrite T1, !stake_i_app. unfold stake_i. cbn [map zsum snd]. rewrite Hs. reflexivity.
+  - intros o Ho. rewrite (T2 o Ho), !pay_io_app. unfold pay_io. cbn [map zsum fst snd]. rewrite Hp. reflexivity.
+  - intros o Ho. rewrite (T3 o Ho), !stake_io_app. unfold stake_io. cbn [map zsum fst snd]. rewrite Hs. reflexivity.
+Qed.
+
+Section IterCov.
+Variable odds : list Z.
+Hypothesis Hndo : NoDup odds.
+Hypothesis Hsmall : zlen odds < U64.
+Variable A : wargs.
+Hypothesis Huids : wa_uids A = odds.
+Hypothesis Hoc : wa_oddscnt A = zlen odds.
+Hypothesis Hsel : In (wa_sel A) odds.
+Hypothesis Hmult : 0 < wa_mult A <= PREC.
+
+Lemma wager_iter_cov B idx rest s s' bs :
+  wager_iter A idx s = Some s' -> linv odds A B (idx :: rest) s ->
+  cinv odds (ws_book s) (bs ++ [(wa_sel A, ws_parts s)]) ->
+  cinv odds (ws_book s') (bs ++ [(wa_sel A, ws_parts s')]).
+Proof.
+  intros H L CI.
+  destruct (wager_iter_decomp odds Hndo Hsmall A Huids Hsel B idx rest s s' H L)
+    as (p0 & pe0 & so & setf & news & p1 & pe1 & p3 & pe3 & bk2 & st & pay & Hgp & Hge0 & HSt & Epe1 & Etba & Eown & Hst & Hpay & Hcase & Hparts & W2 & Hgp3 & Hbook).
+  pose proof (li_bw _ _ _ _ _ L) as W.
+  pose proof (gp_idx _ _ _ Hgp) as Hi0.
+  assert (Hin0 : In p0 (bk_parts (ws_book s))) by (apply get_part_in in Hgp; tauto).
+  assert (Hpw0 : pw odds (ws_book s) idx p0) by (rewrite <- Hi0; apply (bw_parts _ _ W); exact Hin0).
+  destruct (CI p0 Hin0) as [PC0 PT0]. rewrite Hi0 in PC0, PT0.
+  (* the part recorded by this iteration *)
+  set (f0 := {| f_owner := p_owner p0; f_idx := idx; f_stake := st; f_pay := pay |}).
+  assert (Hnp : forall i q, pt odds (ws_book s) i q (bs ++ [(wa_sel A, ws_parts s)]) -> i <> idx ->
+                            pt odds (ws_book s) i q (bs ++ [(wa_sel A, ws_parts s ++ new_part p0 so)])).
+  { intros i q Hq Hne. destruct so as [[a b]|]; cbn [new_part]; [|rewrite app_nil_r; exact Hq].
+    apply pt_add_part; [cbn [f_idx]; rewrite Hi0; intros E; apply Hne; symmetry; exact E|exact Hq]. }
+  (* participation idx after the two writes *)
+  assert (PC3 : pc odds bk2 idx p3).
+  { eapply (pc_after_store odds); try eassumption.
+    destruct Hcase as [(_ & -> & -> & ->)|(_ & EF & X1 & X2)]; [left; repeat split|right; repeat split; assumption]. }
+  assert (PT3 : pt odds bk2 idx p3 (bs ++ [(wa_sel A, ws_parts s ++ new_part p0 so)])).
+  { pose proof (pt_after_store odds A idx (ws_book s) p0 pe0 so setf news p1 pe1 p3 pe3 bk2 st pay bs (ws_parts s) (p_owner p0) HSt Hge0 Epe1 Etba PT0) as X.
+    destruct Hcase as [(-> & Z1 & Z2 & _)|(-> & _)].
+    - cbn [new_part]. rewrite app_nil_r. eapply pt_zero_part; [| |exact X]; cbn; assumption.
+    - cbn [new_part]. rewrite Hi0. exact X. }
+  (* the other participations after the two writes *)
+  assert (Hoth2 : forall q, In q (bk_parts bk2) -> p_idx q <> idx ->
+             pc odds bk2 (p_idx q) q /\ pt odds bk2 (p_idx q) q (bs ++ [(wa_sel A, ws_parts s ++ new_part p0 so)])).
+  { intros q Hq Hne. dS HSt. destruct (S_parts_in q Hq) as [->|Hq']; [exfalso; apply Hne; apply (gp_idx bk2); exact S_gp_same|].
+    destruct (CI q Hq') as [PCq PTq].
+    assert (Hg : forall o, ge bk2 o (p_idx q) = ge (ws_book s) o (p_idx q)) by (intros o; apply S_ge_other; left; exact Hne).
+    assert (Hh : hist_i bk2 (p_idx q) = hist_i (ws_book s) (p_idx q)) by (apply hist_i_eq; exact S_hist).
+    split; [apply (pc_ext odds (ws_book s)); assumption|apply (pt_ext odds (ws_book s)); try assumption; apply Hnp; assumption]. }
+  assert (Hnd2 : NoDup (map p_idx (bk_parts bk2))) by apply (bw_nodup _ _ W2).
+  assert (CI2 : cinv odds bk2 (bs ++ [(wa_sel A, ws_parts s ++ new_part p0 so)])).
+  { intros q Hq. destruct (Z.eq_dec (p_idx q) idx) as [Hi|Hne]; [|apply Hoth2; assumption].
+    assert (q = p3). { pose proof (gp_of_in _ _ Hnd2 Hq) as G. rewrite Hi, Hgp3 in G. congruence. }
+    subst q. rewrite Hi. split; assumption. }
+  rewrite Hparts.
+  destruct Hbook as [->|(Hel & Rf)]; [exact CI2|].
+  (* the round refresh *)
+  assert (Hin3 : In p3 (bk_parts bk2)) by (apply get_part_in in Hgp3; tauto).
+  pose proof (gp_idx _ _ _ Hgp3) as Hi3.
+  assert (Hpw3 : pw odds bk2 idx p3) by (rewrite <- Hi3; apply (bw_parts _ _ W2); exact Hin3).
+  assert (Hexp2 : forall e, In e (bk_expo bk2) -> In (e_odds e) odds) by (intros e He; apply (bw_expo _ _ W2 e He)).
+  assert (W5 : bw odds (ws_book s')) by (eapply (bw_after_refresh odds); eassumption).
+  assert (Hnd5 : NoDup (map p_idx (bk_parts (ws_book s')))) by apply (bw_nodup _ _ W5).
+  pose proof (fun i => hist_i_refresh_other A idx bk2 p3 (ws_book s') i Rf) as Hho.
+  intros q Hq. destruct (Z.eq_dec (p_idx q) idx) as [Hi|Hne].
+  - assert (q = reset_part A p3). { pose proof (gp_of_in _ _ Hnd5 Hq) as G. rewrite Hi, (rf_gp_same _ _ _ _ _ Rf) in G. congruence. }
+    subst q. rewrite Hi. pose proof (bw_keys _ _ W2) as Hk2.
+    split; [eapply (pc_after_refresh odds); eassumption|eapply (pt_after_refresh odds); eassumption].
+  - destruct (rf_parts_in _ _ _ _ _ Rf q Hq) as [->|Hq']; [exfalso; apply Hne; exact Hi3|].
+    destruct (CI2 q Hq') as [PCq PTq].
+    assert (Hg : forall o, ge (ws_book s') o (p_idx q) = ge bk2 o (p_idx q)) by (intros o; apply (rf_ge_other _ _ _ _ _ Rf); exact Hne).
+    split; [apply (pc_ext odds bk2)|apply (pt_ext odds bk2)]; try assumption; apply Hho; exact Hne.
+Qed.
+End IterCov.
+
+Lemma pt_add_empty odds b i p bs sel : pt odds b i p bs -> pt odds b i p (bs ++ [(sel, [])]).
+Proof.
+  intros [T1 T2 T3]. constructor.
+  - rewrite T1, stake_i_app. unfold stake_i. cbn. lia.
+  - intros o Ho. rewrite (T2 o Ho), pay_io_app. unfold pay_io. cbn. destruct (sel =? o); lia.
+  - intros o Ho. rewrite (T3 o Ho), stake_io_app. unfold stake_io. cbn. destruct (sel =? o); lia.
+Qed.
+
+Section LoopCov.
+Variable odds : list Z.
+Hypothesis Hndo : NoDup odds.
+Hypothesis Hsmall : zlen odds < U64.
+Variable A : wargs.
+Hypothesis Huids : wa_uids A = odds.
+Hypothesis Hoc : wa_oddscnt A = zlen odds.
+Hypothesis Hsel : In (wa_sel A) odds.
+Hypothesis Hmult : 0 < wa_mult A <= PREC.
+
+Lemma wager_loop_cov B bs fuel : forall q s s', wager_loop fuel A q s = Some s' -> linv odds A B q s ->
+  cinv odds (ws_book s) (bs ++ [(wa_sel A, ws_parts s)]) -> cinv odds (ws_book s') (bs ++ [(wa_sel A, ws_parts s')]).
+Proof.
+  induction fuel as [|f IH]; intros q s s' H L CI; destruct q as [|idx rest]; cbn [wager_loop] in H.
+  - injection H as <-. exact CI.
+  - discriminate.
+  - injection H as <-. exact CI.
+  - destruct (wager_iter A idx s) as [s1|] eqn:E; [|discriminate].
+    pose proof (wager_iter_cov odds Hndo Hsmall A Huids Hoc Hsel Hmult B idx rest s s1 bs E L CI) as C1.
+    pose proof (wager_iter_linv odds Hndo Hsmall A Huids Hoc Hsel B idx rest s s1 E L) as L1.
+    destruct (wager_setf A idx s) eqn:Es.
+    + destruct ((ws_profit s1 <? PREC) || _); [injection H as <-; exact C1|]. eapply IH; eassumption.
+    + pose proof (last_fill_ends A _ _ _ E Es (wb_profit _ _ (li_bound _ _ _ _ _ L))) as Hlt.
+      apply Z.ltb_lt in Hlt. rewrite Hlt in H. cbn [orb] in H. injection H as <-. exact C1.
+Qed.
+
+Theorem process_wager_cov b betamt profit bettor fee b' parts effs bs :
+  process_wager b A betamt profit bettor fee = Some (b', parts, effs) ->
+  bw odds b -> queues_ok b -> 0 <= betamt -> 0 <= profit -> cinv odds b bs -> cinv odds b' (bs ++ [(wa_sel A, parts)]).
+Proof.
+  unfold process_wager. intros H W Q Hb Hp CI.
+  destruct (get_queue b (wa_sel A)) as [q|] eqn:Eq; [|discriminate].
+  destruct (init_fmap b (wa_sel A)) as [fm|] eqn:EI; [|discriminate].
+  match type of H with context [wager_loop ?f ?a ?qq ?s0] => destruct (wager_loop f a qq s0) as [s|] eqn:EL end; [|discriminate].
+  destruct (PREC <=? ws_profit s); [discriminate|].
+  destruct (ws_parts s) as [|x r] eqn:EP; [discriminate|]. injection H as <- <- _.
+  destruct (Q _ _ Eq) as [Hnd Hel].
+  assert (C : cinv odds (ws_book s) (bs ++ [(wa_sel A, ws_parts s)])).
+  { eapply (wager_loop_cov betamt bs); [exact EL| |].
+    - constructor; cbn [ws_book ws_fmap ws_uq].
+      + exact W.
+      + intros o ql _ Hq. exact (Q o ql Hq).
+      + exists []. rewrite app_nil_r. split; [reflexivity|]. split; [exact Hnd|intros i []].
+      + intros i Hi. destruct (Hel i Hi) as (p & e & X1 & X2 & X3). split; [exists p, e; tauto|]. eapply init_fmap_agrees; eassumption.
+      + constructor; cbn; try lia. constructor.
+    - cbn [ws_book ws_parts]. intros p Hp'. destruct (CI p Hp') as [X1 X2]. split; [exact X1|apply pt_add_empty; exact X2]. }
+  rewrite EP in C. intros p Hp'. change (bk_parts (set_queue (ws_book s) (wa_sel A) (ws_uq s))) with (bk_parts (ws_book s)) in Hp'.
+  destruct (C p Hp') as [X1 X2]. split; [apply (pc_ext odds (ws_book s)); [reflexivity|reflexivity|exact X1]|apply (pt_ext odds (ws_book s)); [reflexivity|reflexivity|exact X2]].
+Qed.
+End LoopCov.
